@@ -1103,6 +1103,12 @@ class Elemwise(Blockwise):
 
         from dask_array._new_collection import new_collection
 
+        if isinstance(self.where, ArrayExpr) or isinstance(self.out, ArrayExpr):
+            # Only the elemwise inputs are sliced below; an array ``where=`` or
+            # ``out=`` operand would keep its full extent and no longer line up
+            # with them. Keep the slice above this node instead.
+            return None
+
         out_ind = self.out_ind
         index = slice_expr.index
 
